@@ -546,8 +546,11 @@ func (n *Node) Bounce() error {
 		return nil
 	}
 	n.cl.M.Emit(mon.Event{Kind: mon.KNote, Node: n.ID, Inc: n.incN, Str: "bounce: Stop()"})
+	n.smu.Lock() // no sample may straddle the restart
 	n.Raft.Stop()
+	n.cl.M.Emit(mon.Event{Kind: mon.KNodeBounce, Node: n.ID, Inc: n.incN})
 	err := n.Raft.Restart()
+	n.smu.Unlock()
 	es := ""
 	if err != nil {
 		es = err.Error()
